@@ -58,7 +58,7 @@ LEAN = {"module": "Pygom.Props.C17",
                      "Pygom.C17.par_order_direct_loss_counterexample", "Pygom.C17.parOrderBy_binds_by_name",
                      "Pygom.C17.get_forgets_state", "Pygom.C17.continue_reads_only_N_finalTol", "Pygom.C17.genLoop_ignores_initial_dist"]}
 BUDGET = {"quick": {"runs": 72, "direct": 10, "malformed": 8, "N": (30, 45), "Gmax": 3},
-          "thorough": {"runs": 1000, "direct": 80, "malformed": 40, "N": (30, 60), "Gmax": 4}}
+          "thorough": {"runs": 800, "direct": 80, "malformed": 40, "N": (30, 60), "Gmax": 4}}
 RULE = ("real ABC runs on SIR_norm/SIR/SIS/SEIR with SquareLoss/NormalLoss/PoissonLoss, 1-3 inferred parameters (+ optionally an "
         "inferred initial state, a population constraint), uniform/gamma/normal priors, log-scale flags, Parameter list in "
         "random order; schedules: rejection, tolerance list, quantile, MNN (M<N-1 and M=N-1), followed by 0-2 "
@@ -603,6 +603,7 @@ def run_case(case):
             tol = resolve_tol(call["tol"], pilot, abc) if not (call["cont"] and not hasattr(abc, "res")) else resolve_tol({"pilot": 0.5}, pilot, abc)
             tol = apply_form(tol, call.get("tol_form"), call["cont"], tags)
             prev_final = float(abc.final_tol) if hasattr(abc, "final_tol") else None
+            tol_snap = [float(v) for v in tol] if hasattr(tol, "__len__") else None
             err = None
             try:
                 if call["cont"]:
@@ -623,6 +624,8 @@ def run_case(case):
                 return {"nontrivial": False, "mismatches": mism, "violations": viol, "tags": tags}
             slots = rec.slots[n_before:]
             N, G = call["N"], call["G"]
+            if tol_snap is not None and [float(v) for v in tol] != tol_snap:
+                tags.append("input-modified:tol")        # a side effect alone is not a violation of C17
             tags.append("call:%s:G=%d:%s%s%s" % ("continue" if call["cont"] else "get", G, "q" if call["q"] is not None else
                                                  ("list" if hasattr(tol, "__len__") else "scalar"),
                                                  ":M" if call["M"] is not None else "", ":" + err if err else ""))
